@@ -170,6 +170,30 @@ def run(ck: Check):
             ck.disagree("freezing thresholds beyond the 32-bit integer range moves them (frozen thresholds not round(trained), not ordered, "
                         "or the frozen code is not x > threshold)", {"init": init, "fresh": fresh, "frozen": fr},
                         signature={"what": "freeze-round", "range": "beyond-int32"})
+    # a layer that becomes frozen by LOADING a frozen state: an optimizer built before the load (momentum / weight decay, zero_grad that keeps
+    # the gradient tensors) must not move the thresholds afterwards - the sibling of the freeze-then-step protocol
+    for opt_name in ("adam", "sgd-momentum-decay"):
+        torch.manual_seed(ck.seed + 71)
+        src = T([1.0, 2.0, 4.0])
+        src.freeze_thresholds()
+        dst = T([1.0, 2.0, 4.0])
+        opt = (torch.optim.Adam(dst.parameters(), lr=0.05) if opt_name == "adam" else
+               torch.optim.SGD(dst.parameters(), lr=0.05, momentum=0.9, weight_decay=0.01))
+        for _ in range(3):
+            opt.zero_grad(set_to_none=False)
+            dst(torch.rand(2, 3, 3) * 5).sum().backward()
+            opt.step()
+        dst.load_state_dict(src.state_dict())
+        before = dst.get_thresholds().detach().clone()
+        for _ in range(20):
+            opt.zero_grad(set_to_none=False)
+            opt.step()
+        after = dst.get_thresholds().detach()
+        case = {"kind": "frozen-by-load-then-optimizer", "optimizer": opt_name}
+        ck.case(case, nontrivial=True, kind="freeze-protocol")
+        if not torch.equal(before, after) or not torch.equal(before, torch.tensor([1.0, 2.0, 4.0])):
+            ck.disagree("thresholds frozen by loading a frozen state are moved by an optimizer that was built before the load",
+                        dict(case, loaded=before.tolist(), after_20_steps=after.tolist()), signature={"what": "freeze-optimizer", "via": "load_state_dict"})
     # ---- fresh layer = initial thresholds
     inits = [[1.0, 2.0, 3.0], [0.001, 0.002, 0.5], [0.25], [5.0, 30.0, 90.0, 200.0], [10.0, 20.5, 21.0, 21.25, 22.0],
              [64.0, 64.5, 65.0, 128.0, 128.25], [19.5, 40.0, 40.0625, 61.0], [0.5, 25.0, 25.5, 26.0]]
